@@ -123,7 +123,11 @@ def run_vgroup(name, repo, scratch, rlimit):
     return res, g
 
 
+EVIDENCE_MAIN = True
+
+
 def main():
+    global EVIDENCE_MAIN
     ap = argparse.ArgumentParser()
     ap.add_argument('prop')
     ap.add_argument('--tier', default=os.environ.get('VERIF_TIER', 'quick'))
@@ -134,6 +138,7 @@ def main():
     a = ap.parse_args()
     if a.replay:
         return replay(a)
+    EVIDENCE_MAIN = (os.path.realpath(a.repo) == '/repo') and not a.units
     pid = a.prop
     if pid not in P.PROPS:
         print('unknown or not-applicable property', pid)
@@ -207,7 +212,7 @@ def finish(pid, cfg, tier, seed, vres, kres, known, t0, scratch):
                         known_hits.append((hit, unit))
                     else:
                         violations.append(dict(engine='verus', unit=unit, function=m['function'], file=m['file'], message=e['message'],
-                                               obligation=e['label'], rendered=e['rendered'], group=r['group']))
+                                               obligation=(e['label'] or e['message']), rendered=e['rendered'], group=r['group']))
                 discharged += max(0, n - len(fails))
             else:
                 discharged += n
@@ -308,7 +313,10 @@ def finish(pid, cfg, tier, seed, vres, kres, known, t0, scratch):
     ev = dict(property_id=pid, tier=tier, seed=seed, level=level, coverage=cov,
               assumptions=sorted(assumptions), wall_s=round(wall, 2), violations=len(violations))
     os.makedirs(os.path.join(VERIF, 'evidence'), exist_ok=True)
-    with open(os.path.join(VERIF, 'evidence', pid + '.json'), 'w') as f:
+    # runs against another tree than /repo (development, --repo) never overwrite the registered evidence
+    evdir = os.path.join(VERIF, 'evidence') if EVIDENCE_MAIN else os.path.join(VERIF, 'evidence', 'alt')
+    os.makedirs(evdir, exist_ok=True)
+    with open(os.path.join(evdir, pid + '.json'), 'w') as f:
         json.dump(ev, f, indent=1)
     print('%s tier=%s: %d/%d unbounded+complete obligations discharged, %d/%d bounded, %d violation(s), %d undecided, %.1fs' % (
         pid, tier, discharged, obligations, bounded_ok, bounded_total, len(violations), len(undecided), wall))
